@@ -294,7 +294,12 @@ func (p *Program) genOnce(fn *ssa.Function, key string, opts GenOpts, pre map[st
 			pvars[n] = v
 		}
 		bindResults(pvars, rnames, res.results)
-		penv := &Env{vc: vc, st: res.st, old: entry, vars: pvars, pkg: pkg}
+		penv := &Env{vc: vc, st: res.st, old: entry, vars: pvars, pkg: pkg, heads: map[int]*State{}}
+		for _, li := range fr.loops {
+			if li.headSt != nil {
+				penv.heads[li.ordinal] = li.headSt
+			}
+		}
 		// ghost updates (`set target := value`): the contract says how the function advances ghost state; executed on
 		// the state at normal return, in order, before the postconditions are checked
 		for _, gu := range fc.Ghost {
@@ -396,13 +401,13 @@ func (fr *Frame) ghostAssign(st *State, env *Env, gu *GhostUpd) (err error) {
 		if g == nil {
 			return fmt.Errorf("%s is not a ghost field (only ghost state can be assigned)", x.Name)
 		}
-		t := env.resolveType(g.Type)
+		t := env.ghostType(g)
 		v := env.coerce(env.eval(gu.Value, t), t)
 		vc.writeKey(st, fieldKey(S, x.Name), t, ref, v)
 		return nil
 	case *EIdent:
 		if g := vc.prog.ghostGlobalIn(x.Name, env.specPkg()); g != nil {
-			t := env.resolveType(g.Type)
+			t := env.ghostType(g)
 			v := env.coerce(env.eval(gu.Value, t), t)
 			vc.writeGlobal(st, "G:ghost."+g.Pkg+"."+x.Name, t, v)
 			return nil
